@@ -46,6 +46,7 @@ struct Obj {
   bool has_nl = false; Expr nl;     // constant folded into nl as n<const> when no other nl part
   double constant = 0;
   std::vector<double> tags;         // tag constants that identify this objective (linear coefs + nl tag)
+  bool cancels = false;             // the G term and the O expression cancel: the objective has no content
   std::string name;
 };
 struct CommonExpr { std::vector<LinTerm> lin; Expr nl; };
